@@ -19,7 +19,7 @@ RULE = ("corpus files, generated documents and vocabulary documents are formatte
 EVAL_KEY = "pairs_judged"
 DISTINCT_KEY = "pairs"
 NSHARDS = {"quick": 8, "thorough": 16}
-FLOORS = {"quick": {"pairs_judged": 8000, "distinct:option-sets": 40, "separate_complex_judged": 2000, "reordered_objects": 200, "documents_loaded_with_comments": 80},
+FLOORS = {"quick": {"pairs_judged": 7000, "distinct:option-sets": 40, "separate_complex_judged": 2000, "reordered_objects": 200, "documents_loaded_with_comments": 80},
           "thorough": {"pairs_judged": 150000, "distinct:option-sets": 700, "separate_complex_judged": 75000,
                        "reordered_objects": 10000, "documents_loaded_with_comments": 700}}
 ASSUMPTIONS = ["block-valued keys = values printed with an END (child blocks, lists of blocks, key-value blocks, PROJECTION/POINTS/PATTERN), "
